@@ -43,6 +43,8 @@ def codec_status(name: str) -> int:
         return 1
     if canon in SINGLE_BYTE_CODECS:
         return 3 + SINGLE_BYTE_CODECS.index(canon)
+    # the model lets every such codec decode the empty byte string to "" (Model/Detwingle.lean `attempt`): true of text encodings only
+    assert codecs.lookup(name)._is_text_encoding, f"{name!r} is not a text encoding: give it its own status before listing it"
     return 2
 
 
